@@ -48,8 +48,9 @@ def replay(cases_path, out_path):
             fails.append({"clause": clause, "case": c, "observed": obs, "expected": exp, **extra})
 
     for n, c in enumerate(cases):
+        n = c.get("_n", n)
         suite = c["suite"]
-        casing = CASINGS[n % 3] if c["suite"] != "agg" else CASINGS[0]
+        casing = CASINGS[n % 3] if c["suite"] not in ("agg", "agg2") else CASINGS[0]
         names = [None if nm == NONE else casing("".join(nm)) for nm in c["names"]]
         exp = ["".join(a) for a in c["cmap"]]
         executed += 1
@@ -58,6 +59,24 @@ def replay(cases_path, out_path):
             got = _sanitize_user_name(names[0])
             if (got or "") != exp[0]:
                 fail("sanitize", c, got, exp[0], name=names[0])
+            continue
+        if suite == "agg2":
+            nk = c["nkeys"]
+            keys, (c1, c2, ap) = names[:nk], names[nk:]
+            cols = [Vector([1, 1, 2], name=k) for k in keys] + [Vector([1, 2, 3], name=c1), Vector([4, 5, 6], name=c2)]
+            t = Table(cols)
+            tc = t.cols()
+            for method in ("aggregate", "window"):
+                try:
+                    r = getattr(t, method)(over=list(tc[:nk]), sum_over=[tc[nk], tc[nk + 1]], apply={ap: (tc[nk], len)})
+                except Exception as ex:       # noqa: BLE001
+                    fail("agg_names", c, "raised " + type(ex).__name__ + ": " + str(ex)[:60], exp, method=method)
+                    continue
+                got = r.column_names()
+                if got != exp:
+                    fail("agg_names", c, got, exp, method=method, names=names)
+                if len(set(got)) != len(got):
+                    fail("agg_names_distinct", c, got, "pairwise distinct", method=method)
             continue
         if suite == "agg":
             k, a, b = names
